@@ -208,6 +208,9 @@ def main():
                 broken.append('%s: must-fail twin %r was fully discharged (the contract does not constrain the code)'
                               % (rec['harness'], tw['twin']))
             elif tw['status'] not in ('ok',) and tw['failed'] == 0:
+                if rec['status'] in ('escape', 'pathcap') and tw['status'] == rec['status']:
+                    # the code left the engine's fragment in the contract run already (undecided, reported above): the twin escapes with it
+                    continue
                 broken.append('%s: must-fail twin %r did not run: %s %s' % (rec['harness'], tw['twin'], tw['status'], tw['error']))
         if rec['bounded']:
             bounded.append({'harness': rec['harness'], 'bound': rec['bounded'], 'cases': len(rec['obligations'])})
